@@ -8,7 +8,7 @@ from .. import common
 from ..common import has_unmodelled
 from ..runner import Outcome
 
-LEVEL = "proof"
+LEVEL = "translation_validation"
 ASSUMPTIONS = ["one fresh interpreter per history (the registry is process-global state)"]
 
 
